@@ -13,8 +13,9 @@ import PharmpyProofs.C04.OmegaLemmas
     * every `(v)xn` item receives n identical parameters (`noRepeatSplit`),
     * the parameters are ones NM-TRAN can express (`ParamOK`).
   Outside these side-conditions the statement is false of the code; the
-  `_witness` theorems are the counterexamples (findings F12, F13 and the ones
-  found while building).  `ThetaRecord.remove` reads back as the per-item drop.
+  `_witness` theorems are the counterexamples (finding F12 and the ones found
+  while building; F13 is fixed in /repo by c1795fa and `theta_frame` /
+  `theta_field_frame` now hold at full strength).  `ThetaRecord.remove` reads back as the per-item drop.
 
   OMEGA.  The scale conversions of BLOCK records are mutually inverse entry by
   entry over any field with a square root on the diagonal.
@@ -96,47 +97,42 @@ theorem theta_update_keeps_other_nodes (r : List RNode) (ps : List Param) :
       | nil => simp [updRec, nonItems, recItems, ih]
       | cons p ps' => simp [updRec, nonItems, recItems, ih]
 
-/-- an item whose parameter did not change keeps its token list — when its bounds are spelled canonically -/
-theorem theta_frame_partial (s : Shp) (h : s.WF) (p : Param) (hu : Unchanged s p) :
+/-- `theta_frame` (full strength since fix c1795fa): an item that already reads as the parameter — same
+    init, same fixedness, bounds that *read back* as the parameter's bounds, whatever their spelling
+    (`1E2`, `5.0`, `-INF`, `,INF`, `1000000`) — keeps its whole token list.  `hlu` is a fact about every
+    tree the parser produces (an upper bound is only written together with a lower bound). -/
+theorem theta_frame (s : Shp) (h : s.WF) (hin : s.Input) (p : Param)
+    (hinit : s.ini.val = p.init) (hfix : hasK .fix s.tail = p.fix)
+    (hup : curUpper s.upV = p.upper) (hlow : curLower s.lowV = p.lower) (hlu : s.low = none → s.up = none) :
     updItem s.build p = s.build := by
-  have e1 : setInit s.build p = s.build := by
-    unfold setInit
-    rw [Shp.findK_init s h]
-    simp [hu.init]
-  have e2 : setFix s.build p = s.build := by
-    unfold setFix
-    rw [Shp.hasK_fix s h]
-    simp [hu.fix]
-  have e3 : setUpper s.build p = s.build := by
-    unfold setUpper
-    rw [Shp.hasK_up s h, hu.up]
-    have hb := Shp.replaceBound_up s h (numNode .up p.upperS p.upper) (by simp [numNode])
-    cases hup : s.up with
-    | none => simp [hup] at hb; cases hn : needUpper p <;> simp [hb] <;> rw [← hup]
-    | some q =>
-      have hq := hu.upSpelled q.1 q.2 (by simp [hup])
-      simp [hup, ← hq] at hb
-      cases hn : needUpper p
-      · have := hu.up; simp [hup, hn] at this
-      · simp only [Bool.not_true, Bool.and_false, Bool.false_and, Bool.false_eq_true, ↓reduceIte,
-          Option.isSome_some, Bool.true_and, Bool.and_true]
-        rw [← hq, hb, ← hup]
-  have e4 : setLower s.low.isSome (multiple s.build) s.build p = s.build := by
-    unfold setLower
-    rw [hu.low]
-    have hb := Shp.replaceBound_low s h (numNode .low p.lowerS p.lower) (by simp [numNode])
-    cases hlo : s.low with
-    | none => simp [hlo] at hb; cases hn : needLower p <;> simp [hb] <;> rw [← hlo]
-    | some q =>
-      have hq := hu.lowSpelled q.1 q.2 (by simp [hlo])
-      simp [hlo, ← hq] at hb
-      cases hn : needLower p
-      · have := hu.low; simp [hlo, hn] at this
-      · simp only [Bool.not_true, Bool.and_false, Bool.false_and, Bool.false_eq_true, ↓reduceIte,
-          Option.isSome_some, Bool.true_and, Bool.and_true]
-        rw [← hq, hb, ← hlo]
-  unfold updItem
-  simp only [e1, e2, e3, Shp.hasK_low s h, e4]
+  obtain ⟨s4, e, _, _, _, _, _, _, _, _, _, _, hid⟩ := Shp.updItem_steps s h hin p
+  have hnone : s.low = none → needLower p = false := by
+    intro hn
+    have hl : p.lower = .ninf := by rw [← hlow]; simp [Shp.lowV, hn, curLower]
+    have hu : p.upper = .pinf := by rw [← hup]; simp [Shp.upV, hlu hn, curUpper]
+    rw [needLower, needUpper, hl, hu]
+    rfl
+  rw [e, hid hinit hfix hup hlow hnone]
+
+/-- `theta_field_frame`: within an item that *is* changed, every field whose value did not change keeps
+    its token: the init token, the FIX tokens and the blanks around them, the upper-bound token, and the
+    lower-bound token (unless the lower bound has to go because the upper bound was just removed). -/
+theorem theta_field_frame (s : Shp) (h : s.WF) (hin : s.Input) (p : Param) :
+    ∃ s' : Shp, updItem s.build p = s'.build ∧ s'.WF ∧
+      (s.ini.val = p.init → s'.ini = s.ini) ∧
+      (hasK .fix s.tail = p.fix → s'.tail = s.tail) ∧
+      (curUpper s.upV = p.upper → s'.up = s.up) ∧
+      (curLower s.lowV = p.lower → (s.low = none → needLower p = false) →
+        (needLower p = true ∨ curUpper s.upV = p.upper) → s'.low = s.low) := by
+  obtain ⟨s4, e, h4, _, _, _, _, _, h1, h2, h3, h5, _⟩ := Shp.updItem_steps s h hin p
+  exact ⟨s4, e, h4, h1, h2, h3, h5⟩
+
+/-- non-vacuity of `theta_frame`: `( 0 ,3,1E2) FIXx2` handed its own parameter (bounds spelled `0`, `1E2`) -/
+example :
+    let p : Param := { init := .fin 3 1, initS := "3.0", lower := .fin 0 1, lowerS := "0",
+                       upper := .fin 100 1, upperS := "100", fix := true }
+    updItem exShape.build p = exShape.build :=
+  theta_frame exShape exShape_wf.1 exShape_wf.2 _ rfl (by decide) (by decide) (by decide) (by simp [exShape])
 
 /-! ### `$THETA`: remove -/
 
@@ -169,21 +165,27 @@ theorem theta_update_repeat_witness :
     parseRec (updRec r ps) = .ok [(pSimple 5 "5.0").toParsed, (pSimple 5 "5.0").toParsed] := by
   decide
 
-/-- F13: `(0,3,1E2)` with new init 4 is written `(0,4.0,100)`: the unchanged upper bound is respelled. -/
-theorem theta_bound_respelled_witness :
+/-- F13 (fixed by c1795fa): `(0,3,1E2)` with new init 4 is now written `(0,4.0,1E2)`; before the fix the
+    unchanged upper bound was respelled `100`. -/
+theorem theta_bound_spelling_kept :
     let cs := [tokLpar, nNum .low "0" 0, tokComma, nNum .init "3" 3, tokComma, nNum .up "1E2" 100, tokRpar]
     let p : Param := { init := .fin 4 1, initS := "4.0", lower := .fin 0 1, lowerS := "0",
                        upper := .fin 100 1, upperS := "100", fix := false }
-    updItem cs p = [tokLpar, nNum .low "0" 0, tokComma, nNum .init "4.0" 4, tokComma, nNum .up "100" 100, tokRpar] := by
+    updItem cs p = [tokLpar, nNum .low "0" 0, tokComma, nNum .init "4.0" 4, tokComma, nNum .up "1E2" 100, tokRpar] := by
   decide
 
-/-- the same respelling hits an item whose parameter did not change at all (every item of a multi-item
-    record goes through `update`): `theta_frame_partial` needs `Unchanged.upSpelled`. -/
-theorem theta_frame_witness :
-    let cs := [tokLpar, nNum .low "0" 0, tokComma, nNum .init "3" 3, tokComma, nNum .up "1E2" 100, tokRpar]
-    let p : Param := { init := .fin 3 1, initS := "3.0", lower := .fin 0 1, lowerS := "0",
-                       upper := .fin 100 1, upperS := "100", fix := false }
-    parseItem cs = .ok p.toParsed ∧ updItem cs p ≠ cs := by
+/-- left over after the fix: an explicit infinite upper bound (`INF`, `1000000`) is now kept, also when the
+    lower bound and the parentheses are removed: `(0,7.5,INF)` with the lower bound set to -inf is written
+    `7.5,INF`, which the grammar does not derive (the values theorem still holds on the tree). -/
+theorem theta_explicit_inf_upper_witness :
+    let cs := [tokLpar, nNum .low "0" 0, tokComma, nNum .init "7.5" 15 2, tokComma,
+               ({ k := .up, rule := "POS_INF", text := "INF", val := .pinf } : TNode), tokRpar]
+    let p : Param := { init := .fin 15 2, initS := "7.5", lower := .ninf, lowerS := "-inf",
+                       upper := .pinf, upperS := "inf", fix := false }
+    grammarOK cs = true ∧
+    updItem cs p = [nNum .init "7.5" 15 2, tokComma,
+                    ({ k := .up, rule := "POS_INF", text := "INF", val := .pinf } : TNode)] ∧
+    grammarOK (updItem cs p) = false := by
   decide
 
 /-- fixing `(1)x2` appends ` FIX` after `x2`; the `theta` rule has `n | FIX` there, not both -/
@@ -333,6 +335,37 @@ example :
   have hrep : noRepeatSplitD r ps = true := by decide
   refine ⟨hok, hrep, ?_⟩
   rw [omega_diag_update_reads_back_partial r ps hok (by intro p hp; simp [ps] at hp; rcases hp with rfl | rfl <;> decide) hrep]
+  decide
+
+/-! ### `$OMEGA` / `$SIGMA BLOCK(n)`: fixedness -/
+
+/-- `omega_block_fix_reads_back`: for every BLOCK record — any number of `omega` nodes, FIX written on the
+    header, after an init, or inside the parentheses before/after the value, any blanks/comments — after
+    the BLOCK branch of `OmegaRecord.update` with new fixedness `b` the reader's `_block_flags` reports `b`
+    (when no `(v)xn` node has to be split). -/
+theorem omega_block_fix_reads_back (r : List DNode) (vals : List OParam) (f b : Bool)
+    (h : blockFix r = .ok f) (hb : hasBlock r = true) (hn : noSplitB r vals = true) :
+    ∃ r', updBlock r vals b = .ok r' ∧ blockFix r' = .ok b := by
+  obtain ⟨h1, h2, h3⟩ := updBlockVals_flags r vals hn
+  refine ⟨setBlockFix f (updBlockVals r vals) b, by simp [updBlock, h], ?_⟩
+  apply setBlockFix_reads_back
+  · unfold blockFix at h ⊢
+    rw [h1, h3]
+    exact h
+  · rw [h2]; exact hb
+
+/-- non-vacuity, the layouts the seeded mutation needed: `BLOCK(2) 0.1 0.01 (0.2 FIX)`, unfixed, and
+    `BLOCK(2) 0.1 0.01 0.2`, fixed -/
+example :
+    let r := [DNode.tok tokWs, .tok nBlock, .tok tokWs, .item [nNum .init "0.1" 1 10], .tok tokWs,
+              .item [nNum .init "0.01" 1 100], .tok tokWs,
+              .item [tokLpar, nNum .init "0.2" 1 5, tokWs, tokFix, tokRpar], .tok nNewline]
+    let vals := [oP 1 10 "0.1" false, oP 1 100 "0.01" false, oP 1 5 "0.2" false]
+    blockFix r = .ok true ∧ hasBlock r = true ∧ noSplitB r vals = true ∧
+      updBlock r vals false = .ok [DNode.tok tokWs, .tok nBlock, .tok tokWs, .item [nNum .init "0.1" 1 10], .tok tokWs,
+              .item [nNum .init "0.01" 1 100], .tok tokWs,
+              .item [tokLpar, nNum .init "0.2" 1 5, tokRpar], .tok nNewline] ∧
+      (updBlock r vals true).map blockFix = .ok (.ok true) := by
   decide
 
 /-! ### `$OMEGA` / `$SIGMA BLOCK(n)`: scale conversions (every block size, entry by entry) -/
